@@ -43,10 +43,20 @@ static inline uint32_t stamp(void) { return __atomic_add_fetch(&g_stamp, 1, __AT
 #define MAXCRL 6
 static struct { unsigned char *der; int len; int cls; } g_crl[MAXCRL];
 static int g_ncrl;
-static unsigned char *g_certpem; static int g_certpemlen;   /* server certificate file contents (read-only) */
+static unsigned char *g_certpem; static int g_certpemlen;
+/* Issuer class 2 ("pinned"): CRLs of a CA minted by the driver (--pin <dir>: pinca.pem, pinleaf.pem, pinleaf.key; the sample CAs other than
+   the 2048 one lack cRLSign) that ALL list the serial of pinleaf.pem.  The CRL
+   thread only ever refreshes this class with psCRL_Update(crl, 1) and never deletes it, so once the first refresh has
+   returned every revocation query for that certificate must answer REVOKED_AND_AUTHENTICATED in any sequential order. */
+static struct { unsigned char *der; int len; } g_pin[MAXCRL];
+static int g_npin;
+static const char *g_pindir;
+static psX509Cert_t *g_pinca;
+static sslKeys_t *g_skeys_rev;          /* server identity = the revoked certificate (used by C_REVHS only) */
+   /* server certificate file contents (read-only) */
 
 /* ------------------------------------------------------------------ operation log */
-enum { C_HS = 0, C_PRNG, C_VALIDATE, C_RESET, C_TKADD, C_TKDEL, C_CRL };
+enum { C_HS = 0, C_PRNG, C_VALIDATE, C_RESET, C_TKADD, C_TKDEL, C_CRL, C_REVQ, C_REVHS };
 enum { LT_ID12 = 0, LT_TK12, LT_PSK13, LT_ID11, LT_N };
 static const char *lt_name[] = { "id12", "tk12", "psk13", "id11" };
 enum { M_NORMAL = 0, M_ALERT_HS, M_ALERT_APP, M_ABANDON };
@@ -54,7 +64,7 @@ static const char *mode_name[] = { "normal", "alert-hs", "alert-app", "abandon" 
 
 typedef struct {
     uint32_t call, ret;
-    uint8_t cat, thr, lc, lt, mode, cauth, sub;
+    uint8_t cat, thr, lc, lt, mode, cauth, sub; uint16_t curve;
     uint16_t suite;
     /* credential the client held before the operation */
     uint64_t off_id, off_tk, off_psk, off_sec; uint8_t off_key[16]; uint8_t off_haskey;
@@ -71,14 +81,14 @@ typedef struct {
     int32_t expect;        /* service ops: model expectation */
 } op_t;
 
-typedef struct { sslSessionId_t *sid; int lt; int ver; uint16_t suite; int cauth; int slot; } lc_t;
+typedef struct { sslSessionId_t *sid; int lt; int ver; uint16_t suite; int cauth; int slot; int curve; /* 0 any, 256/384/521: the only curve this client offers */ } lc_t;
 
 /* Credential board: after a completed handshake a worker publishes a copy of its session-id / RFC 5077 ticket
  * credential; other workers borrow it into a private sslSessionId_t, so that ONE cache entry / ticket is resumed by
  * several threads at the same time (reference counts > 1).  One small mutex per board cell: it orders only the
  * publisher before the borrower of that cell, not the threads in general. */
 typedef struct {
-    pthread_mutex_t mu; int valid; int lt, ver; uint16_t suite; uint32 cipherId;
+    pthread_mutex_t mu; int valid; int lt, ver, curve; uint16_t suite; uint32 cipherId;
     unsigned char id[SSL_MAX_SESSION_ID_SIZE]; int idLen; unsigned char ms[SSL_HS_MASTER_SIZE];
     unsigned char ticket[512]; int ticketLen; uint32 ticketHint; uint16 ticketState;
 } board_t;
@@ -89,6 +99,7 @@ typedef struct worker {
     lc_t lc[LT_N];
     op_t *ops; int nops, cap;
     psX509Cert_t *cert;     /* private parsed copy of the server certificate (validated against the shared CA list) */
+    psX509Cert_t *revcert;  /* private parsed copy of the revoked certificate */
     op_t *cur;
     long apicalls, yields, sleeps;
     uint32_t period;        /* service threads */
@@ -223,12 +234,21 @@ static int pump(worker_t *w, ep_t *c, ep_t *s, pumpctl_t *pc)
     return 0;
 }
 
-static void set_opts(sslSessOpts_t *o, int ver, int role, int ticket)
+/* curve != 0 (clients only): offer exactly that curve, so that handshakes of different clients make the server's shared
+   ephemeral-key cache (sslKeys_t.cache) regenerate its key while other sessions are copying it */
+static void set_opts(sslSessOpts_t *o, int ver, int role, int ticket, int curve)
 {
     memset(o, 0, sizeof *o);
     psProtocolVersion_t v = ver == 13 ? v_tls_1_3 : ver == 12 ? v_tls_1_2 : v_tls_1_1;
     if (role) matrixSslSessOptsSetServerTlsVersionRange(o, v, v); else matrixSslSessOptsSetClientTlsVersionRange(o, v, v);
     if (!role && ticket) o->ticketResumption = 1;
+    if (!role && curve) {
+        o->ecFlags = curve == 256 ? SSL_OPT_SECP256R1 : curve == 384 ? SSL_OPT_SECP384R1 : SSL_OPT_SECP521R1;
+        if (ver == 13) {
+            uint16_t g[1] = { (uint16_t) (curve == 256 ? namedgroup_secp256r1 : curve == 384 ? namedgroup_secp384r1 : namedgroup_secp521r1) };
+            matrixSslSessOptsSetKeyExGroups(o, g, 1, 1);
+        }
+    }
 }
 
 static void snap_cred(const lc_t *lc, uint64_t *id, uint64_t *tk, uint64_t *psk, uint64_t *sec, uint8_t key[16], uint8_t *haskey)
@@ -259,13 +279,13 @@ static void op_handshake(worker_t *w, lc_t *lc, int mode)
     op_t *o = op_new(w, C_HS);
     if (!o) return;
     w->cur = o;
-    o->lc = (uint8_t) lc->slot; o->lt = lc->lt; o->mode = mode; o->suite = lc->suite; o->cauth = lc->cauth;
+    o->lc = (uint8_t) lc->slot; o->lt = lc->lt; o->mode = mode; o->suite = lc->suite; o->cauth = lc->cauth; o->curve = (uint16_t) lc->curve;
     o->call = stamp();
     snap_cred(lc, &o->off_id, &o->off_tk, &o->off_psk, &o->off_sec, o->off_key, &o->off_haskey);
 
     ep_t C, S; memset(&C, 0, sizeof C); memset(&S, 0, sizeof S);
     sslSessOpts_t so, co;
-    set_opts(&so, lc->ver, 1, 0); set_opts(&co, lc->ver, 0, lc->lt == LT_TK12);
+    set_opts(&so, lc->ver, 1, 0, 0); set_opts(&co, lc->ver, 0, lc->lt == LT_TK12, lc->curve);
     psCipher16_t cs[1] = { lc->suite };
     pumpctl_t pc; memset(&pc, 0, sizeof pc); pc.corrupt_round = pc.stop_round = -1;
     /* the credential bytes the client holds; looked for in its ClientHello (a client that does not put its credential
@@ -400,7 +420,7 @@ static void publish(worker_t *w, lc_t *lc)
     if (lc->lt == LT_TK12 ? !(sd->sessionTicket && sd->sessionTicketLen > 0 && sd->sessionTicketLen <= 512) : sd->idLen == 0) return;
     board_t *b = &g_board[w->idx * LT_N + lc->lt];
     pthread_mutex_lock(&b->mu);
-    b->lt = lc->lt; b->ver = lc->ver; b->suite = lc->suite; b->cipherId = sd->cipherId;
+    b->lt = lc->lt; b->ver = lc->ver; b->suite = lc->suite; b->curve = lc->curve; b->cipherId = sd->cipherId;
     memcpy(b->id, sd->id, sizeof b->id); b->idLen = sd->idLen; memcpy(b->ms, sd->masterSecret, sizeof b->ms);
     b->ticketLen = 0;
     if (lc->lt == LT_TK12) { memcpy(b->ticket, sd->sessionTicket, sd->sessionTicketLen); b->ticketLen = sd->sessionTicketLen; b->ticketHint = sd->sessionTicketLifetimeHint; b->ticketState = sd->sessionTicketState; }
@@ -421,7 +441,7 @@ static void op_borrow(worker_t *w)
     pthread_mutex_lock(&b->mu);
     if (b->valid) {
         sslSessionId_t *sd = lc.sid;
-        lc.lt = lt; lc.ver = b->ver; lc.suite = b->suite; lc.slot = LT_N + lt;
+        lc.lt = lt; lc.ver = b->ver; lc.suite = b->suite; lc.curve = b->curve; lc.slot = LT_N + lt;
         sd->cipherId = b->cipherId; memcpy(sd->id, b->id, sizeof sd->id); sd->idLen = b->idLen;
         memcpy(sd->masterSecret, b->ms, sizeof sd->masterSecret);
         if (b->ticketLen > 0) {
@@ -435,6 +455,52 @@ static void op_borrow(worker_t *w)
     matrixSslDeleteSessionId(lc.sid);
 }
 
+/* burst of revocation queries for the revoked certificate (thread-private parsed copy: the call writes cert->revokedStatus) */
+static void op_revq(worker_t *w)
+{
+    if (!g_npin || !w->revcert) return;
+    op_t *o = op_new(w, C_REVQ); if (!o) return;
+    int n = 8 + (int) vf_below(&w->rng, 25), bad = 0, first = CRL_CHECK_REVOKED_AND_AUTHENTICATED;
+    o->call = stamp();
+    for (int i = 0; i < n; i++) {
+        jit(w);
+        int st = psCRL_determineRevokedStatus(w->revcert);
+        if (st != CRL_CHECK_REVOKED_AND_AUTHENTICATED) { if (!bad) first = st; bad++; }
+    }
+    o->rc = first; o->expect = CRL_CHECK_REVOKED_AND_AUTHENTICATED; o->sent_c = n; o->got_c = bad;
+    o->ret = stamp();
+}
+/* TLS 1.2 handshake against a server whose certificate is revoked: the client validates as the TLS layer always does
+   (psX509AuthenticateCert -> psCRL_determineRevokedStatus on the global cache) and must refuse */
+static void op_revhs(worker_t *w)
+{
+    if (!g_npin || !g_pindir) return;
+    op_t *o = op_new(w, C_REVHS); if (!o) return;
+    w->cur = o;
+    o->suite = 0x009c;
+    o->call = stamp();
+    ep_t C, S; memset(&C, 0, sizeof C); memset(&S, 0, sizeof S);
+    sslSessOpts_t so, co; set_opts(&so, 12, 1, 0, 0); set_opts(&co, 12, 0, 0, 0);
+    psCipher16_t cs[1] = { 0x009c };
+    pumpctl_t pc; memset(&pc, 0, sizeof pc); pc.corrupt_round = pc.stop_round = -1;
+    jit(w);
+    int rc = matrixSslNewServerSession(&S.ssl, g_skeys_rev, NULL, &so);
+    if (rc < 0) { o->rc_s = rc; S.ssl = NULL; goto out; }
+    jit(w);
+    rc = matrixSslNewClientSession(&C.ssl, g_ckeys, NULL, cs, 1, cert_cb, NULL, NULL, NULL, &co);
+    if (rc < 0) { o->rc_c = rc; C.ssl = NULL; goto out; }
+    pump(w, &C, &S, &pc);
+    o->completed = C.hsDone && S.hsDone && !C.dead && !S.dead;
+out:
+    if (S.ssl && !o->rc_s) o->rc_s = (int16_t) S.lastrc;
+    if (C.ssl && !o->rc_c) o->rc_c = (int16_t) C.lastrc;
+    o->srv_alert = S.nAlertIn ? (uint8_t) S.alertDesc : 0xff;
+    jit(w); ep_free(&C);
+    jit(w); ep_free(&S);
+    o->ret = stamp();
+    w->cur = NULL;
+}
+
 static const uint16_t suites12[] = { 0xc02f, 0x009c, 0xc027, 0x003d, 0xc030, 0x002f, 0xc02b, 0xc023 };
 static const uint16_t suites11[] = { 0x002f, 0xc013, 0x0035, 0xc014, 0xc009 };
 static const uint16_t suites13[] = { 0x1301, 0x1302, 0x1303 };
@@ -446,7 +512,9 @@ static void *worker_main(void *arg)
     for (int i = 0; i < g_nops; i++) {
         uint32_t r = vf_below(&w->rng, 100);
         lc_t *lc = &w->lc[vf_below(&w->rng, LT_N)];
-        if (r < 62) { op_handshake(w, lc, M_NORMAL); publish(w, lc); }
+        if (r < 57) { op_handshake(w, lc, M_NORMAL); publish(w, lc); }
+        else if (r < 60) op_revq(w);
+        else if (r < 62) op_revhs(w);
         else if (r < 70) op_borrow(w);
         else if (r < 75) op_handshake(w, lc, M_ALERT_HS);
         else if (r < 80) op_handshake(w, lc, M_ALERT_APP);
@@ -527,17 +595,41 @@ static void *rotator_main(void *arg)
 }
 
 /* ---- CRL cache churn: the only thread that changes the cache, so its model is exact */
-enum { CRL_UPDATE = 0, CRL_UPDATE_AUTH, CRL_INSERT, CRL_DELETE, CRL_DELETEALL, CRL_QUERY };
+enum { CRL_UPDATE = 0, CRL_UPDATE_AUTH, CRL_INSERT, CRL_DELETE, CRL_DELETEALL, CRL_QUERY, CRL_REFRESH_PINNED };
 static void *crl_main(void *arg)
 {
     worker_t *w = arg; tls_w = w;
     struct { psX509Crl_t *p; int cls; } live[64]; int nlive = 0;
-    uint32_t last = 0;
+    uint32_t last = 0; int first = 1;
+    psX509Cert_t *pinca = g_pinca;   /* copy of the issuer of the pinned class used by this thread only (authenticates its CRLs) */
     pthread_barrier_wait(&g_start);
-    while (g_ncrl && pace(w, &last)) {
+    while ((g_ncrl || g_npin) && (first || pace(w, &last))) {
         op_t *o = op_new(w, C_CRL); if (!o) break;
         uint32_t r = vf_below(&w->rng, 100);
         int what = r < 30 ? CRL_UPDATE : r < 45 ? CRL_UPDATE_AUTH : r < 55 ? CRL_INSERT : r < 70 ? CRL_DELETE : r < 78 ? CRL_DELETEALL : CRL_QUERY;
+        if (g_npin && pinca && (first || vf_below(&w->rng, 100) < 45)) what = CRL_REFRESH_PINNED;
+        else if (!g_ncrl) { w->nops--; first = 0; continue; }
+        first = 0;
+        if (what == CRL_REFRESH_PINNED) {
+            /* refresh = what apps do after fetching a newer CRL: parse, authenticate, psCRL_Update(crl, 1); twice per operation */
+            o->sub = what; o->expect = 1; o->rc = 1;
+            o->call = stamp();
+            for (int k = 0; k < 2; k++) {
+                int v = (int) vf_below(&w->rng, g_npin);
+                psX509Crl_t *crl = NULL;
+                unsigned char *tmp = malloc(g_pin[v].len);
+                memcpy(tmp, g_pin[v].der, g_pin[v].len);
+                int rc = psX509ParseCRL(NULL, &crl, tmp, g_pin[v].len);
+                free(tmp);
+                if (rc < 0 || !crl) { o->rc = rc; o->sub |= 0x80; break; }
+                if (psX509AuthenticateCRL(pinca, crl, NULL) < 0) { o->rc = -77; psX509FreeCRL(crl); break; }
+                jit(w);
+                rc = psCRL_Update(crl, 1);
+                if (rc != 1) { o->rc = rc; break; }
+            }
+            o->ret = stamp();
+            continue;
+        }
         if (what == CRL_DELETE && !nlive) what = CRL_UPDATE;
         if (what == CRL_INSERT && nlive >= 60) what = CRL_DELETEALL;
         o->sub = what;
@@ -568,8 +660,9 @@ static void *crl_main(void *arg)
             o->rc = psCRL_Delete(live[i].p); o->expect = 1;
             memmove(&live[i], &live[i + 1], (nlive - i - 1) * sizeof live[0]); nlive--;
         } else if (what == CRL_DELETEALL) {
-            jit(w);
-            psCRL_DeleteAll(); nlive = 0; o->rc = o->expect = 0;
+            /* one by one: psCRL_DeleteAll() would also drop the pinned class, which by design is never absent */
+            o->rc = o->expect = 0;
+            while (nlive > 0) { jit(w); if (psCRL_Delete(live[--nlive].p) != 1) o->rc = -1; }
         } else {
             /* the thread's own parsed copy of the server certificate; issuer class 0 = RSA CA */
             int have = 0; for (int i = 0; i < nlive; i++) if (live[i].cls == 0) have = 1;
@@ -589,9 +682,11 @@ static void die(const char *m, int rc) { fprintf(stderr, "HARNESS: %s (%d)\n", m
 static void load_keys(void)
 {
     char ca[1100];
-    snprintf(ca, sizeof ca, "%s/RSA/2048_RSA_CA.pem;%s/EC/256_EC_CA.pem", g_keydir, g_keydir);
+    if (g_pindir) snprintf(ca, sizeof ca, "%s/RSA/2048_RSA_CA.pem;%s/EC/256_EC_CA.pem;%s/pinca.pem", g_keydir, g_keydir, g_pindir);
+    else snprintf(ca, sizeof ca, "%s/RSA/2048_RSA_CA.pem;%s/EC/256_EC_CA.pem", g_keydir, g_keydir);
     int rc;
-    if (matrixSslNewKeys(&g_skeys, NULL) < 0 || matrixSslNewKeys(&g_ckeys, NULL) < 0) die("newkeys", -1);
+    if (matrixSslNewKeys(&g_skeys, NULL) < 0 || matrixSslNewKeys(&g_ckeys, NULL) < 0 || matrixSslNewKeys(&g_skeys_rev, NULL) < 0) die("newkeys", -1);
+    if (g_pindir && (rc = matrixSslLoadKeys(g_skeys_rev, pathf("%s/pinleaf.pem", g_pindir), pathf("%s/pinleaf.key", g_pindir), NULL, NULL, NULL)) < 0) die("revoked server keys", rc);
     if ((rc = matrixSslLoadKeys(g_skeys, pathf("%s/RSA/2048_RSA.pem", g_keydir), pathf("%s/RSA/2048_RSA_KEY.pem", g_keydir), NULL, ca, NULL)) < 0) die("server keys", rc);
     rc = matrixSslLoadKeys(g_skeys, pathf("%s/EC/256_EC.pem", g_keydir), pathf("%s/EC/256_EC_KEY.pem", g_keydir), NULL, NULL, NULL);
     g_have_ec = rc >= 0;
@@ -605,6 +700,7 @@ static void load_crls(const char *list)
         if (colon) { *colon = 0; cls = atoi(t); t = colon + 1; }
         FILE *f = fopen(t, "rb"); if (!f) die("crl file", 0);
         unsigned char *b = malloc(65536); int n = (int) fread(b, 1, 65536, f); fclose(f);
+        if (cls == 2) { if (g_npin < MAXCRL) { g_pin[g_npin].der = b; g_pin[g_npin].len = n; g_npin++; } continue; }
         g_crl[g_ncrl].der = b; g_crl[g_ncrl].len = n; g_crl[g_ncrl].cls = cls; g_ncrl++;
     }
     free(dup);
@@ -614,7 +710,7 @@ static void hex16(char *d, const uint8_t *p) { for (int i = 0; i < 16; i++) spri
 static void dump_op(const op_t *o)
 {
     char b[1400], k1[40], k2[40]; int n;
-    static const char *cat[] = { "hs", "prng", "validate", "reset", "tkadd", "tkdel", "crl" };
+    static const char *cat[] = { "hs", "prng", "validate", "reset", "tkadd", "tkdel", "crl", "revq", "revhs" };
     n = snprintf(b, sizeof b, "{\"t\":\"op\",\"th\":%u,\"c\":%u,\"r\":%u,\"k\":\"%s\"", o->thr, o->call, o->ret, cat[o->cat]);
     if (o->cat == C_HS || o->cat == C_RESET) {
         hex16(k1, o->off_key); hex16(k2, o->iss_key);
@@ -623,11 +719,11 @@ static void dump_op(const op_t *o)
                       (unsigned long long) o->off_sec, o->off_haskey ? k1 : "");
     }
     if (o->cat == C_HS) {
-        n += snprintf(b + n, sizeof b - n, ",\"mode\":\"%s\",\"wire\":%u,\"suite\":%u,\"cauth\":%u,\"sub\":%u,\"done\":%u,\"res\":%u,\"srv_err\":%u,\"srv_dead\":%u,\"cli_dead\":%u,"
+        n += snprintf(b + n, sizeof b - n, ",\"mode\":\"%s\",\"wire\":%u,\"curve\":%u,\"suite\":%u,\"cauth\":%u,\"sub\":%u,\"done\":%u,\"res\":%u,\"srv_err\":%u,\"srv_dead\":%u,\"cli_dead\":%u,"
                       "\"cli_alert\":%u,\"srv_alert\":%u,\"cb_alert\":%u,\"data_ok\":%u,\"tampered\":%u,\"rc_c\":%d,\"rc_s\":%d,"
                       "\"srv_ms\":\"%llx\",\"cli_ms\":\"%llx\",\"srv_sid\":\"%llx\",\"iss_id\":\"%llx\",\"iss_tk\":\"%llx\",\"iss_psk\":\"%llx\",\"iss_sec\":\"%llx\",\"iss_key\":\"%s\","
                       "\"sent_c\":%d,\"sent_s\":%d,\"got_c\":%d,\"got_s\":%d",
-                      mode_name[o->mode], o->on_wire, o->suite, o->cauth, o->sub, o->completed, o->resumed, o->srv_err, o->srv_dead, o->cli_dead,
+                      mode_name[o->mode], o->on_wire, o->curve, o->suite, o->cauth, o->sub, o->completed, o->resumed, o->srv_err, o->srv_dead, o->cli_dead,
                       o->cli_alert, o->srv_alert, o->cb_alert, o->data_ok, o->tampered, o->rc_c, o->rc_s,
                       (unsigned long long) o->srv_ms, (unsigned long long) o->cli_ms, (unsigned long long) o->srv_sid,
                       (unsigned long long) o->iss_id, (unsigned long long) o->iss_tk, (unsigned long long) o->iss_psk, (unsigned long long) o->iss_sec, o->iss_haskey ? k2 : "",
@@ -637,6 +733,10 @@ static void dump_op(const op_t *o)
         n += snprintf(b + n, sizeof b - n, ",\"name\":\"%s\",\"rc\":%d,\"expect\":%d,\"sub\":%u", k1, o->rc, o->expect, o->sub);
     } else if (o->cat == C_PRNG) {
         n += snprintf(b + n, sizeof b - n, ",\"rc\":%d,\"expect\":%d,\"h\":\"%llx\"", o->rc, o->expect, (unsigned long long) o->h);
+    } else if (o->cat == C_REVQ) {
+        n += snprintf(b + n, sizeof b - n, ",\"rc\":%d,\"expect\":%d,\"n\":%d,\"bad\":%d", o->rc, o->expect, o->sent_c, o->got_c);
+    } else if (o->cat == C_REVHS) {
+        n += snprintf(b + n, sizeof b - n, ",\"done\":%u,\"cb_alert\":%u,\"srv_alert\":%u,\"rc_c\":%d,\"rc_s\":%d", o->completed, o->cb_alert, o->srv_alert, o->rc_c, o->rc_s);
     } else if (o->cat == C_VALIDATE || o->cat == C_CRL) {
         n += snprintf(b + n, sizeof b - n, ",\"rc\":%d,\"expect\":%d,\"sub\":%u", o->rc, o->expect, o->sub);
     }
@@ -651,11 +751,13 @@ int main(int argc, char **argv)
     g_nops = (int) vf_argl("--ops", 50);
     g_keydir = vf_arg("--keys", g_keydir);
     g_empty = (int) vf_argl("--empty", 0);
+    g_pindir = vf_arg("--pin", NULL);
     if (g_nthreads < 1 || g_nthreads > 64 || g_nops < 1) die("bad --threads/--ops", 0);
     if (matrixSslOpen() < 0) die("matrixSslOpen", -1);
     load_keys();
     { FILE *f = fopen(pathf("%s/RSA/2048_RSA.pem", g_keydir), "rb"); if (!f) die("cert file", 0);
       g_certpem = malloc(65536); g_certpemlen = (int) fread(g_certpem, 1, 65536, f); fclose(f); }
+    if (g_pindir && psX509ParseCertFile(NULL, pathf("%s/pinca.pem", g_pindir), &g_pinca, 0) < 0) die("parse pinned CA", 0);
     const char *crls = vf_arg("--crl", NULL);
     if (crls) load_crls(crls);
 
@@ -671,6 +773,7 @@ int main(int argc, char **argv)
         w->cap = i < g_nthreads ? g_nops + 4 : g_nops * g_nthreads + 64;
         w->ops = calloc(w->cap, sizeof(op_t));
         if (psX509ParseCertFile(NULL, pathf("%s/RSA/2048_RSA.pem", g_keydir), &w->cert, 0) < 0 || !w->cert) die("parse cert", 0);
+        if (g_pindir && (psX509ParseCertFile(NULL, pathf("%s/pinleaf.pem", g_pindir), &w->revcert, 0) < 0 || !w->revcert)) die("parse revoked cert", 0);
         if (i < g_nthreads) {
             int rot = (int) vf_below(&master, 64);
             for (int t = 0; t < LT_N; t++) {
@@ -684,6 +787,11 @@ int main(int argc, char **argv)
                     if (!ecdsa || g_have_ec) break;
                 }
                 lc->cauth = vf_below(&master, 4) == 0;
+                {   /* seed-independent curve plan: neighbouring clients and threads never agree on the curve */
+                    int ecdsa = lc->suite == 0xc02b || lc->suite == 0xc023 || lc->suite == 0xc009;
+                    int ecdhe = lc->ver == 13 || (lc->suite >> 8) == 0xc0;
+                    lc->curve = !ecdhe ? 0 : ecdsa ? 256 : (i * LT_N + t) % 9 == 4 ? 521 : ((i + t) & 1) ? 384 : 256;
+                }
             }
         }
     }
@@ -718,10 +826,11 @@ int main(int argc, char **argv)
     vf_stat("runs", 1);
     for (int i = 0; i < nw; i++) {
         for (int t = 0; t < LT_N; t++) if (W[i].lc[t].sid) matrixSslDeleteSessionId(W[i].lc[t].sid);
-        psX509FreeCert(W[i].cert);
+        psX509FreeCert(W[i].cert); if (W[i].revcert) psX509FreeCert(W[i].revcert);
     }
     psCRL_DeleteAll();
-    matrixSslDeleteKeys(g_skeys); matrixSslDeleteKeys(g_ckeys);
+    if (g_pinca) psX509FreeCert(g_pinca);
+    matrixSslDeleteKeys(g_skeys); matrixSslDeleteKeys(g_ckeys); matrixSslDeleteKeys(g_skeys_rev);
     matrixSslClose();
     const char end[] = "{\"t\":\"end\"}\n";
     vf_write(end, sizeof end - 1);
